@@ -21,7 +21,7 @@ ASSUMPTIONS = [
     "hash randomisation, dict/set iteration order, numpy's Mersenne Twister and scipy.stats are runtime behaviour: this half of the property is a differential test over interpreter runs, not a theorem",
     "the Lean model certifies the dataflow only: the time grid is a sorted de-duplicated list (iteration-order independent), the path-based getter re-seeds before sampling",
 ]
-PARTIAL = ["runtime half (hash seeds, global RNG, separate processes): subprocess differential test, labelled as test"]
+PARTIAL = ["runtime half (hash randomisation, numpy generator, scipy.stats, separate interpreter processes): subprocess differential test, labelled as test; the Lean theorems certify the dataflow (sorted de-duplicated grid, re-seeding, explicit seeds)"]
 BUDGET_S = {"quick": 200, "thorough": 1800}
 CONFIGS = [("0", 0), ("1", 5), ("random", 50), ("1", 0), ("random", 5), ("0", 50)]
 
